@@ -1,10 +1,11 @@
-"""C02 — compiled SQL returns exactly the multiset the program denotes.
+"""C02 — aggregation, distinct and negation follow the documented semantics.
 
 (T) lean/LogicaModel/Props/C02.lean
 (K/S) generated core-fragment programs: rows + column names from the real pipeline on SQLite versus the
       Lean reference evaluator Sem.denote on the generator's AST.
 """
 import core
+import cqcheck
 import gen_program as G
 import semcheck
 import templates
@@ -38,9 +39,10 @@ def run(ck):
     if got != exp:
       ck.violation(c.get('key', 'corpus:' + c['_file']), 'corpus %s: %s %s, got %s expected %s' % (
           c['_file'], r['kind'], r.get('message', '')[:150], got, exp), {'program': c['program'], 'pred': c['pred']})
+  cqcheck.run_agg(ck, ck.budget(150, 3000))     # (K) verified GROUP BY of the conjunctive fragment vs SQLite
   n = ck.budget(150, 2500)
   made = semcheck.make_programs(ck, n, MASK)
-  made += semcheck.make_programs(ck, ck.budget(40, 600), None, {'templates': ['t_sibling_combines', 't_division', 't_outer_only_value']}, builder=templates.build)
+  made += semcheck.make_programs(ck, ck.budget(50, 750), None, {'templates': ['t_sibling_combines', 't_division', 't_outer_only_value', 't_pure_distinct', 't_mixed_head', 't_argmin_k']}, builder=templates.build)
   jobs = [(pr.text(), [p.name for p in pr.preds]) for pr, _ in made]
   reals = core.pmap(semcheck.job_real, jobs)
   for (pr, model), job, real in zip(made, jobs, reals):
